@@ -460,6 +460,20 @@ func TestC09_P_MetadataTimeBuilder(t *testing.T) {
 			if md.FieldMimeType().Exists() != (msg.MimeType != nil) || (msg.MimeType != nil && md.FieldMimeType().Must().String() != *msg.MimeType) {
 				t.Fatalf("C09: metadata %x decodes to mime %v, want %v", wire, md.FieldMimeType(), msg.MimeType)
 			}
+			// the MimeType is a Go string: it stays what it is when the caller reuses the buffer the message was decoded from
+			if msg.MimeType != nil {
+				scratch := append([]byte(nil), wire...)
+				md2, err := data.DecodeUnixFSMetadata(scratch)
+				if err != nil {
+					t.Fatalf("C09: %v", err)
+				}
+				for i := range scratch {
+					scratch[i] = 'X'
+				}
+				if got := md2.FieldMimeType().Must().String(); got != *msg.MimeType {
+					t.Fatalf("C09: metadata decoded from a buffer that was refilled afterwards now reports MimeType %q, it was %q", got, *msg.MimeType)
+				}
+			}
 			enc := data.EncodeUnixFSMetadata(md)
 			canon, _ := proto.Marshal(msg)
 			if !bytes.Equal(enc, canon) {
